@@ -21,7 +21,7 @@
 (*   <<"align", d>>   the Contextual built by doc.align (hang = align nest) *)
 (*   <<"pop", a>>     SAnnotationPop entry living on the engine's stack     *)
 (***************************************************************************)
-EXTENDS Naturals, Integers, Sequences
+EXTENDS Naturals, Integers, Sequences, StrSplitFn
 
 BREAK == 0
 FLAT == 1
@@ -83,18 +83,72 @@ Norm(d) ==
          IF Len(r[1]) = 0 THEN NILT
          ELSE IF r[2] THEN <<"ab", <<"fill", r[1]>>>> ELSE <<"fill", r[1]>>
 
-\* pretty_str's Contextual (prettyprinter.py: pretty_str.evaluator), for strings whose
-\* single-line form needs no escaping: <<"pstr", codes, isbytes>>.  It returns the
-\* single-line literal when len(s) + 2 <= available width; the multi-line forms are
-\* outside this model (<<"unmodelled">>; they are always_break documents).
+\* pretty_str's Contextual (prettyprinter.py: pretty_str.evaluator) for str / bytes over
+\* printable ASCII and newline:  <<"pstr", codes, isbytes, strategy, ctx.indent>>.
+\* It composes determine_quote_strategy, escape_str_for_quote, str_to_lines
+\* (StrSplitFn!Lines) and the four multiline strategies.  Other strings are outside the
+\* model (<<"unmodelled">>).
 TextT(codes) == <<"t", Len(codes), 0, Len(codes), codes>>
-StrFlat(d) ==
-  LET q == <<39>>
-      body == IF Len(d[2]) = 0 THEN NILT ELSE <<"ann", 6, TextT(d[2])>>
-  IN <<"cat", << IF d[3] THEN <<"ann", 7, TextT(<<98>>)>> ELSE TextT(<<>>),
-                 <<"ann", 6, <<"cat", <<TextT(q), body, TextT(q)>>>>>> >>>>
+ClassOf(ch) ==
+  CASE ch = 32 -> 2 [] ch = 10 -> 3 [] ch = 39 -> 4 [] ch = 34 -> 5 [] ch = 92 -> 6
+    [] ch \in 48..57 \cup 65..90 \cup 97..122 \cup {95} -> 1
+    [] ch \in 33..126 -> 9
+    [] OTHER -> 0
+ModelledStr(codes) == \A i \in 1..Len(codes) : ClassOf(codes[i]) # 0
+Classes(codes) == [i \in 1..Len(codes) |-> ClassOf(codes[i])] \o <<>>
+Count(codes, ch) == Cardinality({i \in 1..Len(codes) : codes[i] = ch})
+\* determine_quote_strategy
+QuoteOf(codes) == IF Count(codes, 39) = 0 THEN QS
+                  ELSE IF Count(codes, 34) = 0 THEN QD
+                  ELSE IF Count(codes, 39) <= Count(codes, 34) THEN QS ELSE QD
+\* escape_str_for_quote (repr, re-escaped for the chosen quote)
+RECURSIVE Escaped(_, _)
+Escaped(codes, q) ==
+  IF Len(codes) = 0 THEN <<>>
+  ELSE LET ch == Head(codes)
+           e == CASE ch = 39 -> IF q = QS THEN <<92, 39>> ELSE <<39>>
+                  [] ch = 34 -> IF q = QD THEN <<92, 34>> ELSE <<34>>
+                  [] ch = 92 -> <<92, 92>>
+                  [] ch = 10 -> <<92, 110>>
+                  [] OTHER -> <<ch>>
+       IN e \o Escaped(Tail(codes), q)
+\* pretty_single_line_str (the escape-highlighting annotations inside the literal are
+\* not modelled: they do not change the text)
+SingleLine(codes, bytes, q) ==
+  LET qc == IF q = QS THEN <<39>> ELSE <<34>>
+      body == IF Len(codes) = 0 THEN NILT ELSE <<"ann", 6, TextT(Escaped(codes, q))>>
+  IN <<"cat", << IF bytes THEN <<"ann", 7, TextT(<<98>>)>> ELSE TextT(<<>>),
+                 <<"ann", 6, <<"cat", <<TextT(qc), body, TextT(qc)>>>>>> >>>>
+RECURSIVE Slices(_, _, _, _)
+Slices(codes, lens, i, from) ==
+  IF i > Len(lens) THEN <<>>
+  ELSE <<SubSeq(codes, from, from + lens[i] - 1)>> \o Slices(codes, lens, i + 1, from + lens[i])
+RECURSIVE Intersperse(_, _, _)
+Intersperse(x, ys, i) == IF i > Len(ys) THEN <<>>
+                         ELSE (IF i = 1 THEN <<ys[i]>> ELSE <<x, ys[i]>>) \o Intersperse(x, ys, i + 1)
 EvalStr(d, ind, col, pw, R) ==
-  IF Len(d[2]) + 2 <= Min(pw - col, ind + R - col) THEN StrFlat(d) ELSE <<"unmodelled">>
+  LET codes == d[2]
+      bytes == d[3]
+      q == QuoteOf(codes)
+      flat == SingleLine(codes, bytes, q)
+  IN IF ~ModelledStr(codes) THEN <<"unmodelled">>
+     ELSE IF Len(codes) + 2 <= Min(pw - col, ind + R - col) THEN flat
+     ELSE LET maxlen == Max(Min(pw, ind + R) - ind - 2, 10)
+              ls == Lines(Classes(codes), bytes, FALSE, q, maxlen)
+          IN IF Len(ls) <= 1 THEN flat
+             ELSE LET lens == [i \in 1..Len(ls) |-> Len(ls[i])] \o <<>>
+                      pieces == Slices(codes, lens, 1, 1)
+                      lits == [i \in 1..Len(pieces) |-> SingleLine(pieces[i], bytes, q)] \o <<>>
+                      parts == Intersperse(HLT, lits, 1)
+                      lp == <<"ann", 13, TextT(<<40>>)>>
+                      rp == <<"ann", 13, TextT(<<41>>)>>
+                  IN CASE d[4] = "plain" -> <<"ab", <<"cat", parts>>>>
+                       [] d[4] = "hang" -> <<"ab", <<"nest", d[5], <<"cat", parts>>>>>>
+                       [] d[4] = "parens" ->
+                            <<"ab", <<"cat", <<lp, <<"nest", d[5], <<"cat", <<HLT>> \o parts>>>>, HLT, rp>>>>>>
+                       [] d[4] = "indented" ->
+                            <<"ab", <<"cat", <<TextT(<<>>), <<"nest", d[5], <<"cat", <<HLT>> \o parts>>>>, NILT,
+                                               TextT(<<>>)>>>>>>
 
 \* FlatChoice.when_broken / when_flat.  In a tree-shaped document every
 \* FlatChoice object is reached in one mode only, so when_flat is returned
@@ -231,7 +285,7 @@ RECURSIVE Wt(_), WtSeq(_, _)
 WtSeq(docs, i) == IF i > Len(docs) THEN 0 ELSE Wt(docs[i]) + WtSeq(docs, i + 1)
 Wt(d) ==
   CASE d[1] \in {"t", "nil", "hl", "pop", "unmodelled"} -> 1
-    [] d[1] = "pstr" -> 12
+    [] d[1] = "pstr" -> 12 + 8 * Len(d[2])
     [] d[1] = "cat" -> 1 + WtSeq(d[2], 1)
     [] d[1] = "fill" -> 1 + WtSeq(d[2], 1) + Len(d[2])
     [] d[1] \in {"grp", "ab"} -> 1 + Wt(d[2])
